@@ -88,6 +88,9 @@ def _bounds(t):
         l1, h1, _ = _iv(a[1], w)
         if l0 >= h1:
             lo, hi = l0 - h1, h0 - l1
+        elif h0 < l1:
+            # always wraps exactly once
+            lo, hi = l0 - h1 + M + 1, h0 - l1 + M + 1
     elif op == "mul":
         l0, h0, z0 = _iv(a[0], w)
         l1, h1, z1 = _iv(a[1], w)
@@ -362,6 +365,8 @@ def t_ashr(a, k, w):
             return a
         if not _c(a) and a.hi < (1 << (w - 1)):
             return t_lshr(a, k, w)
+        if not _c(a) and a.lo >= (1 << (w - 1)) and k >= w - 1:
+            return mask(w)
     return _mk("ashr", (a, k), w)
 
 
